@@ -35,6 +35,21 @@ CHECKS = {
    technique="bounded-exhaustive enumeration of selector ASTs (≤3/4 clauses + targeted union/recursion families) × block graphs (≤4/5 nodes, every cut into blocks, dangling/shared links), each walked by the real WalkAdv/WalkMatching and compared with an independent substitution-style reference denotation",
    text="Every (selector, graph) pair in the bound is compiled by the real parser and walked over real blocks stored in a real link system; the visit sequence (path, node content, reason), the link-load sequence and the matching-only walk must equal the reference denotation written by substitution from the documented semantics.",
    note="Trusted: reference denotation mc/trav/refwalk.go. Known finding: one depth counter per merged union (known_findings.json). ExploreInterpretAs/ADL reification and conditions other than stop-at-link are outside the alphabet."),
+ "C14": dict(
+   category="model_checking", design_ref="DESIGN.md §5 C14",
+   technique="exhaustive enumeration of graphs × every visit of every walk, every node position, every path ≤3 segments over a 10-segment alphabet, every segment string ≤3 bytes; Get/Focus/stepwise lookup on the real code vs a reference resolver",
+   text="For every visit of every enumerated walk (and WalkLocal) the reported path, as reported and re-parsed, must resolve through Get, Focus and segment-by-segment lookup (loading links) to the visited node; every position's own path resolves in string, int and parsed form; every short path succeeds exactly when the reference resolver finds it; String/ParsePath round-trips every clean segment sequence.",
+   note="Trusted: reference resolver trav.Resolve. Non-canonical numerals on lists are unspecified (agreement only)."),
+ "C15": dict(
+   category="model_checking", design_ref="DESIGN.md §5 C15",
+   technique="exhaustive enumeration of every setting of each traversal control (node budget 0..|U|+1, link budget 0..|L|+1, start-at every visited path, visit-once, every skip set ≤2/3) for every (graph, selector) pair, compared with the prefix/suffix/subsequence of the unrestricted real walk",
+   text="Each control is applied alone on the real walk; visits, loads and the error must be exactly the prefix (budgets), tail (start-at), or subsequence (once/skip) of the unrestricted sequence computed for the same pair, including which blocks may be loaded.",
+   note="Uses the reference denotation only to attribute visits to blocks, and only where the real unrestricted walk equals it. Preloader interaction is excluded as the property states."),
+ "C16": dict(
+   category="model_checking", design_ref="DESIGN.md §5 C16",
+   technique="exhaustive enumeration of graphs × target paths ≤2/3 segments × replacements × createParents, selector-driven transforms for every selector ≤3 clauses × 3 transform functions, and all 2-step transform sequences, against a functional-update reference with hand-hashed re-linking",
+   text="Every focused transform in the bound must equal the reference functional update (content, order, links recomputed by hand), leave the input node and blocks unchanged, call the callback once with the node at the target, fail exactly where the target is unreachable; walking transforms must replace exactly the matched nodes and re-link across links; chained transforms never disturb earlier results.",
+   note="Trusted: reference update in mc/props/c16, reference DAG-CBOR encoder + crypto/sha256 for new links. Root replacement is limited to what the root's prototype accepts; root removal and non-canonical indices are unspecified."),
 }
 
 NOT_YET = "check not built yet in this round (planned in DESIGN.md §5; will be claimed when its explorer exists)"
